@@ -136,7 +136,7 @@ def emit_behaviours(module, cfg, workdir, outfile, workers=None, timeout=1500, x
 
 # --------------------------------------------------------------------------- drivers
 
-def run_driver_shard(fam, tier, seed, shard, nshards, outbase, extra, max_restarts=30, budget=0):
+def run_driver_shard(fam, tier, seed, shard, nshards, outbase, extra, max_restarts=4, budget=0):
     """Run one shard; restart behind a crash/hang. Returns list of log files."""
     files = []
     skip = 0
@@ -166,7 +166,11 @@ def run_driver_shard(fam, tier, seed, shard, nshards, outbase, extra, max_restar
             sys.stdout.write(p.stdout[-3000:])
             raise ToolError("driver %s died before its first run" % fam)
         skip += nruns
-    raise ToolError("driver %s: too many restarts" % fam)
+    # the code under test keeps dying: every death already left a dangling call (= a violation to report);
+    # the rest of this shard is abandoned
+    log("driver %s shard %d: giving up after %d restarts (the dangling calls are reported)" %
+        (fam, shard, max_restarts))
+    return files
 
 
 def run_drivers(fam, tier, seed, workdir, extra=None, nshards=None, budget=0):
@@ -176,7 +180,7 @@ def run_drivers(fam, tier, seed, workdir, extra=None, nshards=None, budget=0):
     t0 = time.time()
     with ThreadPoolExecutor(max_workers=NCPU) as ex:
         futs = [ex.submit(run_driver_shard, fam, tier, seed, s, nshards,
-                          os.path.join(workdir, "%s-%d" % (fam, s)), extra, 30, budget)
+                          os.path.join(workdir, "%s-%d" % (fam, s)), extra, 4, budget)
                 for s in range(nshards)]
         files = []
         for f in futs:
